@@ -2,7 +2,8 @@
     through the parameters [sign], [verify], [pk] and the hypotheses [verify_sign] (signing
     then verifying with the matching public key succeeds) and [sign_bytes]. *)
 From Base Require Import Prelude Sx Json JsonText Base64.
-From C02 Require Import Model Proofs.
+From C02 Require Import Model Proofs SourceTie.
+From Gen Require Import SigConsts.
 From C05 Require Import Proofs.
 From C01 Require Roundtrip.
 
@@ -113,3 +114,13 @@ Theorem C02_tamper_detected :
 Proof. exact tamper_detected. Qed.
 Eval compute in "PA:C02_tamper_detected"%string.
 Print Assumptions C02_tamper_detected.
+
+(** The signed bytes leave out exactly `signatures` and `unsigned`, and verification has no size
+    limit of its own: read from functions.rs on every run. *)
+Theorem C02_signing_bytes_constants_are_the_sources :
+  src_canonical_json_fields = [k_signatures; k_unsigned] /\
+  src_canonical_json_size_checked = false /\
+  src_helper_size_checked = false.
+Proof. exact SourceTie.source_constants. Qed.
+Eval compute in "PA:C02_signing_bytes_constants_are_the_sources"%string.
+Print Assumptions C02_signing_bytes_constants_are_the_sources.
